@@ -28,7 +28,8 @@ BlockAlphabet ==
 \* calls, containers, methods
 CallAlphabet ==
     { Id("a"), Id("f"), Num(7), Sym("lparen"), Sym("rparen"), Sym("lbracket"), Sym("rbracket"), Sym("lcurl"), Sym("rcurl"),
-      Sym("comma"), Sym("colon"), Sym("dot"), Sym("eol"), Sym("assign") }
+      Sym("comma"), Sym("colon"), Sym("dot"), Sym("eol"), Sym("assign"),
+      Str("s", <<97, 10, 98>>) }          \* a plain string with a raw line break (deprecated but accepted): positions after it
 
 Alphabet == CASE AlphabetName = "full" -> FullAlphabet
               [] AlphabetName = "expr" -> ExprAlphabet
